@@ -69,6 +69,32 @@ Definition disp_ok (cs : chains) (okb : list irule -> bool) (root : string) : bo
 (* host-endpoint dispatch whose endpoint chains start with the failsafe jump *)
 Definition hep_disp_ok (cs : chains) (root fs : string) : bool := disp_ok cs (hep_pre_ok fs) root.
 
+(* ---------------------------------------------------------------- cali-set-endpoint-mark (kube-ipvs mode) *)
+(* rules: interface match -> goto a chain that only sets marks (directly or through one level of child chains);
+   "Unknown endpoint" deny rules, only for workload-prefix wildcards; the final non-Calico mark *)
+Definition mark_only (body : list irule) : bool :=
+  forallb (fun r => match ir_action r with AMark _ _ => true | _ => false end) body.
+Definition sem_leaf (cs : chains) (r : irule) : bool :=
+  iface_only (ir_match r) &&
+  match ir_action r with
+  | AGoto ch => match lookup cs ch with Some b => mark_only b | None => false end
+  | _ => false
+  end.
+Definition sem_rule (cs : chains) (prefixes : list (list N)) (r : irule) : bool :=
+  sem_leaf cs r
+  || (iface_only (ir_match r) &&
+      match ir_action r with
+      | AGoto ch => match lookup cs ch with Some b => forallb (sem_leaf cs) b | None => false end
+      | _ => false
+      end)
+  || (match ir_match r, ir_action r with
+      | [MInIface false pfx true], ADrop | [MInIface false pfx true], AReject => existsb (bytes_eqb pfx) prefixes
+      | _, _ => false
+      end)
+  || (match ir_action r with AMark _ _ => true | _ => false end).
+Definition setmark_ok (cs : chains) (prefixes : list (list N)) : bool :=
+  match lookup cs CH_SET_EP_MARK with Some b => forallb (sem_rule cs prefixes) b | None => false end.
+
 (* ---------------------------------------------------------------- workload dispatch (from-workload) *)
 (* leaves: exact in-interface match -> goto that endpoint's chain; the list ends with an unconditional deny *)
 Definition wl_leaf (r : irule) : option (list N * string) :=
